@@ -92,7 +92,7 @@ MutOps    == PushOps \cup {"pop_back", "pop_front", "remove", "swap", "swap_remo
               "clone_from"}
 GetOps    == {"get", "nth_front", "nth_back", "index", "get_mut", "nth_front_mut", "nth_back_mut",
               "index_mut", "front", "back", "front_mut", "back_mut"}
-ReadOps   == GetOps \cup {"as_slices", "as_mut_slices", "observe", "to_vec", "clone", "eq", "ne", "lt", "le",
+ReadOps   == GetOps \cup {"as_slices", "as_mut_slices", "observe", "expect_layout", "to_vec", "clone", "eq", "ne", "lt", "le",
               "gt", "ge", "partial_cmp", "cmp", "hash", "debug", "eq_slice", "write_via", "poison"}
 CtorOps   == {"new", "default", "boxed", "from_array", "from_iter"}
 ViewNew   == {"iter", "iter_mut", "range", "range_mut", "drain"}
@@ -347,6 +347,9 @@ OkFail(S, e) ==
            \cup Chk(DropIds(e) \cap Kept(S, e) = {}, FaultTag(S, e), "dropped_but_still_present")
         ELSE {})
   \cup Chk(Moved(S, e) <= MoveBound(S, e), "C20", "relocated_too_many")
+  \cup \* not a property: the scenario's prelude aimed for a physical layout; if the implementation places
+       \* elements differently the run is still valid, but the layout coverage is not what the model intended
+       Chk(op # "expect_layout" \/ ~e.post.obs \/ e.post.len <= 0 \/ e.post.slots[1] = e.i, "DRIFT", "layout_not_reached")
   \cup (IF op = "clone" /\ e.post2.obs
         THEN    Chk(MatchSeq(e, Clones(seq), e.post2.seq), "C12", "clone_contents")
            \cup Chk(e.post2.len = Len(e.post2.seq) /\ e.post2.cap = BufCap(S, e.h) /\ Distinct(e.post2.seq)
